@@ -1,0 +1,101 @@
+//go:build verif
+
+// Contracts for the govc verifier (/verif). Comment-only.
+
+package snacl
+
+//@ axiom snacl_errs: ErrInvalidPassword != nil && ErrMalformed != nil && ErrDecryptFailed != nil
+//@     && ErrInvalidPassword != ErrMalformed && ErrMalformed != ErrDecryptFailed && ErrInvalidPassword != ErrDecryptFailed
+
+// Encrypt: fresh 24-byte nonce from the random source, output = nonce followed
+// by secretbox.Seal(message, nonce, key); the input is not modified.
+//@ func (*CryptoKey).Encrypt(ck, in) (out, err)
+//@   property C17
+//@   requires nonnil: ck != nil
+//@   ensures fresh_nonce: randCtr == old(randCtr) + 1
+//@   ensures length: err == nil ==> len(out) == 24 + len(in) + 16
+//@   ensures nonce_prefix: err == nil ==> (forall i Int :: {out[i]} 0 <= i && i < 24 ==> out[i] == bat(randB(old(randCtr), 24), i))
+//@   ensures sealed_suffix: err == nil ==> (forall i Int :: {out[24+i]} 0 <= i && i < len(in) + 16 ==>
+//@       out[24+i] == bat(sealB(old(bytes(in)), randB(old(randCtr), 24), old(bytes(ck))), i))
+//@   ensures failure: err != nil ==> out == nil
+//@   ensures input_untouched: forall i Int :: {in[i]} 0 <= i && i < len(in) ==> in[i] == old(in[i])
+
+// Decrypt: refuses anything shorter than a nonce; otherwise the verdict and the
+// data are exactly secretbox.Open's on (in[24:], nonce = in[:24], key).
+//@ func (*CryptoKey).Decrypt(ck, in) (out, err)
+//@   property C17
+//@   requires nonnil: ck != nil
+//@   ensures malformed: len(in) < 24 ==> err == ErrMalformed && out == nil
+//@   ensures gated_by_open: len(in) >= 24 ==> (err == nil) == openOk(old(bytes(sub(in, 24, len(in)))), old(bytes(sub(in, 0, 24))), old(bytes(ck)))
+//@   ensures content: len(in) >= 24 && err == nil ==> bytes(out) == openMsg(old(bytes(sub(in, 24, len(in)))), old(bytes(sub(in, 0, 24))), old(bytes(ck)))
+//@   ensures no_data_on_failure: err != nil ==> out == nil
+//@   ensures failure_class: len(in) >= 24 && err != nil ==> err == ErrDecryptFailed
+
+//@ func (*CryptoKey).Zero(ck)
+//@   property C17 C05
+//@   requires nonnil: ck != nil
+//@   ensures zeroed: forall k Int :: {ck[k]} 0 <= k && k < 32 ==> ck[k] == 0
+
+//@ func (*SecretKey).deriveKey(sk, password) (err)
+//@   property C17
+//@   requires nonnil: sk != nil && sk.Key != nil && password != nil
+//@   ensures derived: err == nil ==> bytes(sk.Key) == scryptB(old(bytes(deref(password))), old(bytes(sk.Parameters.Salt)),
+//@       old(sk.Parameters.N), old(sk.Parameters.R), old(sk.Parameters.P), 32)
+//@   ensures params_untouched: bytes(sk.Parameters.Salt) == old(bytes(sk.Parameters.Salt)) && bytes(sk.Parameters.Digest) == old(bytes(sk.Parameters.Digest))
+//@       && sk.Parameters.N == old(sk.Parameters.N) && sk.Parameters.R == old(sk.Parameters.R) && sk.Parameters.P == old(sk.Parameters.P) && sk.Key == old(sk.Key)
+
+// DeriveKey accepts exactly when the SHA-256 of the full derived key equals the
+// full stored 32-byte digest.
+//@ func (*SecretKey).DeriveKey(sk, password) (err)
+//@   property C17
+//@   requires nonnil: sk != nil && sk.Key != nil && password != nil
+//@   ensures digest_gate: err == nil ==> sha256B(bytes(sk.Key)) == bytes(sk.Parameters.Digest)
+//@       && bytes(sk.Key) == scryptB(old(bytes(deref(password))), old(bytes(sk.Parameters.Salt)), old(sk.Parameters.N), old(sk.Parameters.R), old(sk.Parameters.P), 32)
+//@   ensures mismatch_rejected: sha256B(bytes(sk.Key)) != bytes(sk.Parameters.Digest) ==> err != nil
+
+// Marshal: 32 bytes salt, 32 bytes digest, N, R, P as little-endian uint64.
+//@ func (*SecretKey).Marshal(sk) (r)
+//@   property C17
+//@   requires nonnil: sk != nil
+//@   ensures length: len(r) == 88
+//@   ensures salt: forall i Int :: {r[i]} 0 <= i && i < 32 ==> r[i] == sk.Parameters.Salt[i]
+//@   ensures digest: forall i Int :: {r[32+i]} 0 <= i && i < 32 ==> r[32+i] == sk.Parameters.Digest[i]
+//@   ensures n: forall k Int :: {r[64+k]} 0 <= k && k < 8 ==> r[64+k] == le64byte(sk.Parameters.N < 0 ? sk.Parameters.N + 18446744073709551616 : sk.Parameters.N, k)
+//@   ensures r: forall k Int :: {r[72+k]} 0 <= k && k < 8 ==> r[72+k] == le64byte(sk.Parameters.R < 0 ? sk.Parameters.R + 18446744073709551616 : sk.Parameters.R, k)
+//@   ensures p: forall k Int :: {r[80+k]} 0 <= k && k < 8 ==> r[80+k] == le64byte(sk.Parameters.P < 0 ? sk.Parameters.P + 18446744073709551616 : sk.Parameters.P, k)
+
+// Unmarshal: rejects every length other than 88 without touching the
+// parameters; otherwise reads the fields from exactly the Marshal layout.
+//@ spec func u64toInt(v Int) Int = v > 9223372036854775807 ? v - 18446744073709551616 : v
+//@ func (*SecretKey).Unmarshal(sk, marshalled) (err)
+//@   property C17
+//@   requires nonnil: sk != nil
+//@   ensures wrong_length: len(marshalled) != 88 ==> err == ErrMalformed
+//@       && sk.Parameters.N == old(sk.Parameters.N) && sk.Parameters.R == old(sk.Parameters.R) && sk.Parameters.P == old(sk.Parameters.P)
+//@   ensures ok: len(marshalled) == 88 ==> err == nil && sk.Key != nil
+//@   ensures salt: len(marshalled) == 88 ==> (forall i Int :: {sk.Parameters.Salt[i]} 0 <= i && i < 32 ==> sk.Parameters.Salt[i] == old(marshalled[i]))
+//@   ensures digest: len(marshalled) == 88 ==> (forall i Int :: {sk.Parameters.Digest[i]} 0 <= i && i < 32 ==> sk.Parameters.Digest[i] == old(marshalled[32+i]))
+//@   ensures n: len(marshalled) == 88 ==> sk.Parameters.N == u64toInt(le64(old(marshalled[64]), old(marshalled[65]), old(marshalled[66]), old(marshalled[67]), old(marshalled[68]), old(marshalled[69]), old(marshalled[70]), old(marshalled[71])))
+//@   ensures r: len(marshalled) == 88 ==> sk.Parameters.R == u64toInt(le64(old(marshalled[72]), old(marshalled[73]), old(marshalled[74]), old(marshalled[75]), old(marshalled[76]), old(marshalled[77]), old(marshalled[78]), old(marshalled[79])))
+//@   ensures p: len(marshalled) == 88 ==> sk.Parameters.P == u64toInt(le64(old(marshalled[80]), old(marshalled[81]), old(marshalled[82]), old(marshalled[83]), old(marshalled[84]), old(marshalled[85]), old(marshalled[86]), old(marshalled[87])))
+
+// NewSecretKey: fresh 32-byte salt, key derived from it, digest = SHA-256(key).
+//@ func NewSecretKey(password, N, r, p) (sk, err)
+//@   property C17
+//@   requires nonnil: password != nil
+//@   ensures result: err == nil ==> sk != nil && sk.Key != nil && sk.Parameters.N == N && sk.Parameters.R == r && sk.Parameters.P == p
+//@   ensures salt_fresh: err == nil ==> bytes(sk.Parameters.Salt) == randB(old(randCtr), 32)
+//@   ensures key_derived: err == nil ==> bytes(sk.Key) == scryptB(old(bytes(deref(password))), randB(old(randCtr), 32), N, r, p, 32)
+//@   ensures digest_of_key: err == nil ==> bytes(sk.Parameters.Digest) == sha256B(bytes(sk.Key))
+//@   ensures failure: err != nil ==> sk == nil
+
+//@ func (*SecretKey).Encrypt(sk, in) (out, err)
+//@   property C17
+//@   requires nonnil: sk != nil && sk.Key != nil
+//@   ensures delegates_len: err == nil ==> len(out) == 24 + len(in) + 16
+//@   ensures failure: err != nil ==> out == nil
+//@ func (*SecretKey).Decrypt(sk, in) (out, err)
+//@   property C17
+//@   requires nonnil: sk != nil && sk.Key != nil
+//@   ensures gated_by_open: len(in) >= 24 ==> (err == nil) == openOk(old(bytes(sub(in, 24, len(in)))), old(bytes(sub(in, 0, 24))), old(bytes(sk.Key)))
+//@   ensures no_data_on_failure: err != nil ==> out == nil
